@@ -289,7 +289,9 @@ impl<'a> World<'a> {
 
     pub fn fresh_value(&mut self, field: &str, cls: &str) -> Vec<u8> {
         self.gcount += 1;
-        let n = self.gcount + (self.run_seed << 16);
+        // unique per world; the sub-class of a class (which invalid encoding, which kind of valid key) rotates
+        // with the counter, the run seed and the pool profile
+        let n = self.gcount + (((self.run_seed << 8) + (self.profile.seed & 0xff)) << 16);
         let l = self.lens;
         let okind = matches!(field, "blinded" | "eval");
         let kkind = matches!(field, "cepk" | "sepk" | "cpk" | "spk");
